@@ -324,6 +324,23 @@ def bezier_patch(n, m):
     return h
 
 
+def bezier_patch_range(sx):
+    """evaluate(u, v) is defined on the unit square only: any parameter outside [0,1] is rejected, inside it is accepted"""
+    from mouette.splines import bezier as B
+    ctrl = [[np.array([float(i), float(j), float(i * j + 1)]) for j in range(3)] for i in range(2)]
+    patch = B.BezierPatch(ctrl)
+    u, v = sx.real("u"), sx.real("v")
+    inside = bool(symx.And(u >= 0, u <= 1, v >= 0, v <= 1)) if sx.symbolic else (0 <= u <= 1 and 0 <= v <= 1)
+    try:
+        patch.evaluate(u, v)
+        raised = False
+    except Exception as e:
+        raised = True
+        sx.check(not inside, "patch evaluation accepts every (u,v) in the unit square", detail=repr(e))
+    if not inside:
+        sx.check(raised, "patch evaluation rejects parameters outside the unit square")
+
+
 def exports_e1(sx):
     """bounded: the real exports for small unequal sample counts"""
     from mouette.splines import bezier as B
@@ -341,6 +358,20 @@ def exports_e1(sx):
     pl = curve.as_polyline(n1 + 1)
     E = [tuple(int(x) for x in e) for e in pl.edges]
     sx.check(len(pl.vertices) == n1 + 1 and E == [(i, i + 1) for i in range(n1)], "as_polyline is a chain over its samples")
+    # caller-chosen parameters (repetitions allowed): one vertex per given parameter, chained in the given order, whatever n_pts says
+    pos = [[0., 1.], [0., 0.5, 1.], [0., 0.5, 0.5, 1.], [0., 0.25, 0.5, 0.75, 1.], [1., 0.5, 0.]][sx.choice("custom_positions", 5)]
+    n_arg = [2, 100][sx.choice("n_pts_argument", 2)]
+    try:
+        pl = curve.as_polyline(n_arg, custom_pos=pos)
+    except Exception as e:
+        sx.check(False, "as_polyline raised for caller-chosen parameters", detail="%s: %r" % (pos, e))
+        return
+    E = [tuple(int(x) for x in e) for e in pl.edges]
+    ok = len(pl.vertices) == len(pos) and E == [(i, i + 1) for i in range(len(pos) - 1)]
+    sx.check(ok, "as_polyline with caller-chosen parameters is a chain over exactly those samples", detail="n_pts=%d positions=%s: %d vertices, edges %s" % (n_arg, pos, len(pl.vertices), E))
+    if ok:
+        good = all(np.allclose(np.asarray(pl.vertices[i], dtype=float), np.asarray(curve.evaluate(t), dtype=float)) for i, t in enumerate(pos))
+        sx.check(good, "as_polyline puts each vertex at the curve point of its parameter")
 
 
 def _patch_spec():
@@ -430,6 +461,7 @@ def _obligations(tier):
         Ob("bezier-curve", bezier_curve([1, 2, 3] if q else [1, 2, 3, 4, 5]), covers=COVERS, split=3, note="de Casteljau = Bernstein, end points, range check"),
         Ob("bezier-int", bezier_int, covers=COVERS, note="integer-typed control points, symbolic parameter"),
         Ob("bezier-patch", bezier_patch(2, 2) if q else bezier_patch(3, 3), covers=COVERS, note="patch = tensor product, corners"),
+        Ob("bezier-patch-range", bezier_patch_range, covers=COVERS, note="range check of both patch parameters (symbolic u, v)"),
         Ob("bezier-patch-wide", bezier_patch(2, 3), covers=COVERS, note="2x3 control net (more columns than rows)"),
         Ob("bezier-patch-tall", bezier_patch(3, 2), covers=COVERS, note="3x2 control net (more rows than columns)"),
         Ob("exports", exports_e1, covers=COVERS, split=2, note="as_surface / as_polyline on small unequal sample counts"),
